@@ -1,5 +1,7 @@
 """C01 Classical pattern occurrences, containment and counts are exact."""
+import copy
 import itertools
+import pickle
 import math
 
 from permuta import MeshPatt, Perm
@@ -379,6 +381,18 @@ def chk_history(ctx, p, texts, schedule, fresh_every):
             elif kind == "drop" and gens:
                 key = sorted(gens)[amount % len(gens)]
                 gens.pop(key).close()
+            elif kind == "throw" and gens:
+                # the consumer raises INTO a half-consumed listing (generator protocol); later listings must be unaffected
+                key = sorted(gens)[amount % len(gens)]
+                try:
+                    gens.pop(key).throw(KeyError("raised by the consumer"))
+                except (KeyError, StopIteration):
+                    pass
+                CTX.count("listing.thrown_into")
+            elif kind == "reenter" and gens:
+                # re-entrancy: while a listing is half consumed, the same pattern object starts and finishes other searches
+                _pair(P, T, full=False)
+                _pair(P, Perm(texts[(ti + 1) % len(texts)]), full=False)
             elif kind == "full":
                 _pair(P, T, full=(amount % 2 == 0))
         for g in gens.values():
@@ -387,6 +401,10 @@ def chk_history(ctx, p, texts, schedule, fresh_every):
         check_memo(P)
     finally:
         CASE[0] = None
+
+
+class SubPerm(Perm):
+    """a user-defined subclass without any change of behaviour"""
 
 
 def chk_derived(ctx, p, t, how):
@@ -402,6 +420,11 @@ def chk_derived(ctx, p, t, how):
         "remove_insert": lambda q: q.insert(0, 0).remove(0) if len(q) else q,
         "from_string": lambda q: Perm.from_string(str(q)) if 0 < len(q) <= 10 else q,
         "compose_id": lambda q: q.compose(Perm.identity(len(q))),
+        # copies of an object that has already been searched with (whatever it memoised travels or not - the answers must not change)
+        "pickle": lambda q: pickle.loads(pickle.dumps(q)),
+        "copy": copy.copy,
+        "deepcopy": copy.deepcopy,
+        "subclass": SubPerm,
     }
     make = makers[how]
     P1, T1 = make(P0), make(T0)
@@ -428,7 +451,7 @@ def chk_derived(ctx, p, t, how):
         _pair(S, T1, full=False)
 
 
-DERIVED_HOW = ["to_standard", "inverse_twice", "rotate4", "unrank", "remove_insert", "from_string", "compose_id"]
+DERIVED_HOW = ["to_standard", "inverse_twice", "rotate4", "unrank", "remove_insert", "from_string", "compose_id", "pickle", "copy", "deepcopy", "subclass"]
 
 CHECKS = {"long": chk_long, "multi_mutated": chk_multi_mutated, "derived": chk_derived, "pair": chk_pair, "multi": chk_multi, "multi_in": chk_multi_in, "colour": chk_colour, "history": chk_history}
 
@@ -560,7 +583,7 @@ def run_rand(ctx, spec):
                 vals = sorted(t[i] for i in pos)
                 for j, i in enumerate(pos):
                     t[i] = vals[p[j]]
-        schedule = [(rng.choice(["open", "open", "advance", "advance", "advance", "drop", "full", "full"]),
+        schedule = [(rng.choice(["open", "open", "advance", "advance", "advance", "drop", "full", "full", "throw", "reenter"]),
                      rng.randrange(len(texts)), rng.randrange(100)) for _ in range(rng.randint(10, 60))]
         chk_history(ctx, p, texts, schedule, rng.choice([0, 3, 5]))
         ctx.count("histories")
